@@ -211,6 +211,7 @@ func isStatefulType(e ast.Expr) bool {
 }
 
 var statefulFields = map[string]bool{} // "T.F"
+var mapFields = map[string]bool{}      // "T.F": the field is a map (shared even between value copies of the struct)
 
 // collectStructs: struct name -> field name -> isLock
 func collectStructs(files map[string]*ast.File) map[string]map[string]bool {
@@ -239,6 +240,9 @@ func collectStructs(files map[string]*ast.File) map[string]map[string]bool {
 						m[n.Name] = isLock
 						if isStatefulType(fld.Type) {
 							statefulFields[ts.Name.Name+"."+n.Name] = true
+						}
+						if _, ok := fld.Type.(*ast.MapType); ok {
+							mapFields[ts.Name.Name+"."+n.Name] = true
 						}
 					}
 				}
@@ -396,12 +400,17 @@ func rewrite(fset *token.FileSet, f *ast.File, structs map[string]map[string]boo
 			if !ok || fd.Recv == nil || fd.Body == nil || len(fd.Recv.List) != 1 || len(fd.Recv.List[0].Names) != 1 {
 				continue
 			}
-			star, ok := fd.Recv.List[0].Type.(*ast.StarExpr)
-			if !ok {
-				continue
-			}
-			tid, ok := star.X.(*ast.Ident)
-			if !ok {
+			valueRecv := false
+			var tid *ast.Ident
+			if star, ok := fd.Recv.List[0].Type.(*ast.StarExpr); ok {
+				tid, ok = star.X.(*ast.Ident)
+				if !ok {
+					continue
+				}
+			} else if id, ok := fd.Recv.List[0].Type.(*ast.Ident); ok {
+				// value receiver: the struct is a private copy, but its map fields still point at shared maps
+				tid, valueRecv = id, true
+			} else {
 				continue
 			}
 			fields := structs[tid.Name]
@@ -412,7 +421,7 @@ func rewrite(fset *token.FileSet, f *ast.File, structs map[string]map[string]boo
 			if recv.Name == "_" {
 				continue
 			}
-			a := &accessRewriter{recv: recv, tname: tid.Name, fields: fields, off: off}
+			a := &accessRewriter{recv: recv, tname: tid.Name, fields: fields, off: off, valueRecv: valueRecv}
 			a.block(fd.Body.List)
 			if len(a.eds) > 0 {
 				needHook = true
@@ -556,11 +565,12 @@ func urlEdits(body *ast.BlockStmt, off func(token.Pos) int) []edit {
 }
 
 type accessRewriter struct {
-	recv   *ast.Ident
-	tname  string
-	fields map[string]bool
-	off    func(token.Pos) int
-	eds    []edit
+	valueRecv bool
+	recv      *ast.Ident
+	tname     string
+	fields    map[string]bool
+	off       func(token.Pos) int
+	eds       []edit
 }
 
 // block handles one statement list: for every statement, the accesses that belong to it
@@ -584,9 +594,17 @@ func (a *accessRewriter) block(list []ast.Stmt) {
 		if len(order) > 0 {
 			var sb strings.Builder
 			for _, f := range order {
-				fmt.Fprintf(&sb, "verifhook.Access(%s, %q, %v); ", a.recv.Name, a.tname+"."+f, acc[f])
+				if !a.valueRecv {
+					fmt.Fprintf(&sb, "verifhook.Access(%s, %q, %v); ", a.recv.Name, a.tname+"."+f, acc[f])
+				}
+				if mapFields[a.tname+"."+f] {
+					// keyed by the map itself: matches accesses made through a value copy of the struct
+					fmt.Fprintf(&sb, "verifhook.Access(%s.%s, %q, %v); ", a.recv.Name, f, a.tname+"."+f, acc[f])
+				}
 			}
-			a.eds = append(a.eds, edit{off: a.off(st.Pos()), text: sb.String()})
+			if sb.Len() > 0 {
+				a.eds = append(a.eds, edit{off: a.off(st.Pos()), text: sb.String()})
+			}
 		}
 	}
 }
